@@ -8,7 +8,12 @@
     write of [unPaidTraffic], one call into the settlement interface, one
     channel send / receive.  The read and the write of
     [unPaidTraffic = Add(unPaidTraffic, t)] are different micro steps, so the
-    balance theorems really depend on the peer lock.  A schedule is a list of
+    balance theorems really depend on the peer lock.  The field holds a
+    *big.Int: [ptr] is the address stored in the field, [heap] the allocated
+    big.Int cells ([unpaid] is the value seen through the field, kept alongside;
+    [heap_ok] in ProofsLock.v proves the two agree).  Every update of the field
+    installs a NEW cell ([write_new]); Reserve copies the pointer under the lock
+    and reads the cell after Unlock ([PDeref]).  A schedule is a list of
     [who] (the settle goroutine or a worker thread id); a step of a thread
     that is not enabled (lock taken, channel full/empty, program finished)
     leaves the state unchanged.
@@ -81,7 +86,10 @@ Record access := { a_tid : N; a_peer : N; a_rw : rw; a_held : bool }.
 
 (** ---- shared state ---- *)
 Record sh := {
-  unpaid : N -> option Z;          (* accountingPeers[p].unPaidTraffic; None: no accountingPeer yet *)
+  unpaid : N -> option Z;          (* VALUE of accountingPeers[p].unPaidTraffic; None: no accountingPeer yet *)
+  ptr : N -> option N;             (* the *big.Int stored in accountingPeers[p].unPaidTraffic (address of a heap cell) *)
+  heap : N -> option Z;            (* allocated big.Int cells *)
+  next : N;                        (* allocator: first address never handed out *)
   lock : N -> option N;            (* accountingPeers[p].lock: owner thread *)
   chan : list (N * Z);             (* payChan, oldest first *)
   sreg : option (N * Z);           (* request the settle goroutine holds between receive and Pay *)
@@ -95,17 +103,20 @@ Record sh := {
   puts : list (N * (N * Z))        (* PutTransferTraffic calls (thread, (peer, amount)), newest first *)
 }.
 
-Definition set_unpaid f s := {| unpaid := f; lock := lock s; chan := chan s; sreg := sreg s; pays := pays s; en := en s; init := init s; lin := lin s; acc := acc s; sent := sent s; puts := puts s |}.
-Definition set_lock f s := {| unpaid := unpaid s; lock := f; chan := chan s; sreg := sreg s; pays := pays s; en := en s; init := init s; lin := lin s; acc := acc s; sent := sent s; puts := puts s |}.
-Definition set_chan f s := {| unpaid := unpaid s; lock := lock s; chan := f; sreg := sreg s; pays := pays s; en := en s; init := init s; lin := lin s; acc := acc s; sent := sent s; puts := puts s |}.
-Definition set_sreg f s := {| unpaid := unpaid s; lock := lock s; chan := chan s; sreg := f; pays := pays s; en := en s; init := init s; lin := lin s; acc := acc s; sent := sent s; puts := puts s |}.
-Definition set_pays f s := {| unpaid := unpaid s; lock := lock s; chan := chan s; sreg := sreg s; pays := f; en := en s; init := init s; lin := lin s; acc := acc s; sent := sent s; puts := puts s |}.
-Definition set_en f s := {| unpaid := unpaid s; lock := lock s; chan := chan s; sreg := sreg s; pays := pays s; en := f; init := init s; lin := lin s; acc := acc s; sent := sent s; puts := puts s |}.
-Definition set_init f s := {| unpaid := unpaid s; lock := lock s; chan := chan s; sreg := sreg s; pays := pays s; en := en s; init := f; lin := lin s; acc := acc s; sent := sent s; puts := puts s |}.
-Definition set_lin f s := {| unpaid := unpaid s; lock := lock s; chan := chan s; sreg := sreg s; pays := pays s; en := en s; init := init s; lin := f; acc := acc s; sent := sent s; puts := puts s |}.
-Definition set_acc f s := {| unpaid := unpaid s; lock := lock s; chan := chan s; sreg := sreg s; pays := pays s; en := en s; init := init s; lin := lin s; acc := f; sent := sent s; puts := puts s |}.
-Definition set_sent f s := {| unpaid := unpaid s; lock := lock s; chan := chan s; sreg := sreg s; pays := pays s; en := en s; init := init s; lin := lin s; acc := acc s; sent := f; puts := puts s |}.
-Definition set_puts f s := {| unpaid := unpaid s; lock := lock s; chan := chan s; sreg := sreg s; pays := pays s; en := en s; init := init s; lin := lin s; acc := acc s; sent := sent s; puts := f |}.
+Definition set_unpaid f s := {| unpaid := f; ptr := ptr s; heap := heap s; next := next s; lock := lock s; chan := chan s; sreg := sreg s; pays := pays s; en := en s; init := init s; lin := lin s; acc := acc s; sent := sent s; puts := puts s |}.
+Definition set_ptr f s := {| unpaid := unpaid s; ptr := f; heap := heap s; next := next s; lock := lock s; chan := chan s; sreg := sreg s; pays := pays s; en := en s; init := init s; lin := lin s; acc := acc s; sent := sent s; puts := puts s |}.
+Definition set_heap f s := {| unpaid := unpaid s; ptr := ptr s; heap := f; next := next s; lock := lock s; chan := chan s; sreg := sreg s; pays := pays s; en := en s; init := init s; lin := lin s; acc := acc s; sent := sent s; puts := puts s |}.
+Definition set_next f s := {| unpaid := unpaid s; ptr := ptr s; heap := heap s; next := f; lock := lock s; chan := chan s; sreg := sreg s; pays := pays s; en := en s; init := init s; lin := lin s; acc := acc s; sent := sent s; puts := puts s |}.
+Definition set_lock f s := {| unpaid := unpaid s; ptr := ptr s; heap := heap s; next := next s; lock := f; chan := chan s; sreg := sreg s; pays := pays s; en := en s; init := init s; lin := lin s; acc := acc s; sent := sent s; puts := puts s |}.
+Definition set_chan f s := {| unpaid := unpaid s; ptr := ptr s; heap := heap s; next := next s; lock := lock s; chan := f; sreg := sreg s; pays := pays s; en := en s; init := init s; lin := lin s; acc := acc s; sent := sent s; puts := puts s |}.
+Definition set_sreg f s := {| unpaid := unpaid s; ptr := ptr s; heap := heap s; next := next s; lock := lock s; chan := chan s; sreg := f; pays := pays s; en := en s; init := init s; lin := lin s; acc := acc s; sent := sent s; puts := puts s |}.
+Definition set_pays f s := {| unpaid := unpaid s; ptr := ptr s; heap := heap s; next := next s; lock := lock s; chan := chan s; sreg := sreg s; pays := f; en := en s; init := init s; lin := lin s; acc := acc s; sent := sent s; puts := puts s |}.
+Definition set_en f s := {| unpaid := unpaid s; ptr := ptr s; heap := heap s; next := next s; lock := lock s; chan := chan s; sreg := sreg s; pays := pays s; en := f; init := init s; lin := lin s; acc := acc s; sent := sent s; puts := puts s |}.
+Definition set_init f s := {| unpaid := unpaid s; ptr := ptr s; heap := heap s; next := next s; lock := lock s; chan := chan s; sreg := sreg s; pays := pays s; en := en s; init := f; lin := lin s; acc := acc s; sent := sent s; puts := puts s |}.
+Definition set_lin f s := {| unpaid := unpaid s; ptr := ptr s; heap := heap s; next := next s; lock := lock s; chan := chan s; sreg := sreg s; pays := pays s; en := en s; init := init s; lin := f; acc := acc s; sent := sent s; puts := puts s |}.
+Definition set_acc f s := {| unpaid := unpaid s; ptr := ptr s; heap := heap s; next := next s; lock := lock s; chan := chan s; sreg := sreg s; pays := pays s; en := en s; init := init s; lin := lin s; acc := f; sent := sent s; puts := puts s |}.
+Definition set_sent f s := {| unpaid := unpaid s; ptr := ptr s; heap := heap s; next := next s; lock := lock s; chan := chan s; sreg := sreg s; pays := pays s; en := en s; init := init s; lin := lin s; acc := acc s; sent := f; puts := puts s |}.
+Definition set_puts f s := {| unpaid := unpaid s; ptr := ptr s; heap := heap s; next := next s; lock := lock s; chan := chan s; sreg := sreg s; pays := pays s; en := en s; init := init s; lin := lin s; acc := acc s; sent := sent s; puts := f |}.
 
 Definition owner_eqb (o : option N) (tid : N) : bool :=
   match o with Some t => N.eqb t tid | None => false end.
@@ -115,12 +126,22 @@ Definition owner_eqb (o : option N) (tid : N) : bool :=
 Definition log_acc (tid p : N) (k : rw) (s : sh) : sh :=
   set_acc ({| a_tid := tid; a_peer := p; a_rw := k; a_held := owner_eqb (lock s p) tid |} :: acc s) s.
 
+(** install a NEW big.Int holding [v] in the unpaid field of [p]
+    ([x.unPaidTraffic = big.NewInt(0).Add(..)], [new(big.Int).Sub(..)], [big.NewInt(0)],
+    and the object handed out by RetrieveTraffic when the peer is created) *)
+Definition write_new (p : N) (v : Z) (s : sh) : sh :=
+  set_next (next s + 1)%N
+    (set_heap (upd (heap s) (next s) (Some v))
+       (set_ptr (upd (ptr s) p (Some (next s)))
+          (set_unpaid (upd (unpaid s) p (Some v)) s))).
+
 (** ---- thread-local state ---- *)
 Inductive pt :=
 | PGet                                  (* getAccountingPeer *)
 | PLock                                 (* accountingPeer.lock.Lock() *)
-| PRead | PUnlockR                      (* Reserve (repaired): read under the lock, Unlock *)
-| PReadNL                               (* Reserve (as found): read without the lock *)
+| PRead | PUnlockR                      (* Reserve (repaired): copy the *big.Int under the lock, Unlock *)
+| PReadNL                               (* Reserve (as found): copy the *big.Int without the lock *)
+| PDeref                                (* Reserve: read the VALUE of the copied *big.Int, no lock held *)
 | PAvail                                (* Reserve: settlement.AvailableBalance(), compare *)
 | PCRead | PCWrite | PCPut | PCCheck | PCSend   (* Credit *)
 | PDTransfer | PDPut                    (* Debit *)
@@ -128,7 +149,7 @@ Inductive pt :=
 | PExit                                 (* deferred Unlock, return [pend] *)
 | PEnv.
 
-Record loc := { l_op : op; l_pt : pt; reg : Z; flag : bool; pend : result; lev_ : option lentry; putd : bool }.
+Record loc := { l_op : op; l_pt : pt; reg : Z; rptr : N; flag : bool; pend : result; lev_ : option lentry; putd : bool }.
 (** record of a finished operation: result, last value held in the local
     variable (Credit: balance after its own add; Debit: TransferTraffic seen;
     Reserve / NotifyPayment: unpaid balance seen), whether it sent a payment
@@ -137,18 +158,13 @@ Record drec := { d_op : op; d_res : result; d_reg : Z; d_flag : bool; d_lev : op
 Record thread := { prog : list op; cur : option loc; done : list drec }.
 Record st := { shs : sh; thr : N -> thread }.
 
-Definition goto (l : loc) (p : pt) : loc :=
-  {| l_op := l_op l; l_pt := p; reg := reg l; flag := flag l; pend := pend l; lev_ := lev_ l; putd := putd l |}.
-Definition set_reg (l : loc) (v : Z) : loc :=
-  {| l_op := l_op l; l_pt := l_pt l; reg := v; flag := flag l; pend := pend l; lev_ := lev_ l; putd := putd l |}.
-Definition set_flag (l : loc) (b : bool) : loc :=
-  {| l_op := l_op l; l_pt := l_pt l; reg := reg l; flag := b; pend := pend l; lev_ := lev_ l; putd := putd l |}.
-Definition set_lev (l : loc) (e : option lentry) : loc :=
-  {| l_op := l_op l; l_pt := l_pt l; reg := reg l; flag := flag l; pend := pend l; lev_ := e; putd := putd l |}.
-Definition set_putd (l : loc) (b : bool) : loc :=
-  {| l_op := l_op l; l_pt := l_pt l; reg := reg l; flag := flag l; pend := pend l; lev_ := lev_ l; putd := b |}.
-Definition exit_with (l : loc) (r : result) : loc :=
-  {| l_op := l_op l; l_pt := PExit; reg := reg l; flag := flag l; pend := r; lev_ := lev_ l; putd := putd l |}.
+Definition goto (l : loc) (p : pt) : loc := {| l_op := l_op l; l_pt := p; reg := reg l; rptr := rptr l; flag := flag l; pend := pend l; lev_ := lev_ l; putd := putd l |}.
+Definition set_reg (l : loc) (v : Z) : loc := {| l_op := l_op l; l_pt := l_pt l; reg := v; rptr := rptr l; flag := flag l; pend := pend l; lev_ := lev_ l; putd := putd l |}.
+Definition set_rptr (l : loc) (a : N) : loc := {| l_op := l_op l; l_pt := l_pt l; reg := reg l; rptr := a; flag := flag l; pend := pend l; lev_ := lev_ l; putd := putd l |}.
+Definition set_flag (l : loc) (b : bool) : loc := {| l_op := l_op l; l_pt := l_pt l; reg := reg l; rptr := rptr l; flag := b; pend := pend l; lev_ := lev_ l; putd := putd l |}.
+Definition set_lev (l : loc) (e : option lentry) : loc := {| l_op := l_op l; l_pt := l_pt l; reg := reg l; rptr := rptr l; flag := flag l; pend := pend l; lev_ := e; putd := putd l |}.
+Definition set_putd (l : loc) (b : bool) : loc := {| l_op := l_op l; l_pt := l_pt l; reg := reg l; rptr := rptr l; flag := flag l; pend := pend l; lev_ := lev_ l; putd := b |}.
+Definition exit_with (l : loc) (r : result) : loc := {| l_op := l_op l; l_pt := PExit; reg := reg l; rptr := rptr l; flag := flag l; pend := r; lev_ := lev_ l; putd := putd l |}.
 Definition mk_drec (l : loc) (r : result) : drec :=
   {| d_op := l_op l; d_res := r; d_reg := reg l; d_flag := flag l; d_lev := lev_ l; d_put := putd l |}.
 
@@ -180,8 +196,7 @@ Definition micro (c : cfg) (tid : N) (s : sh) (l : loc) : outcome :=
       | Some _ => Next s (goto l (after_get c o))
       | None =>
           if fails (en s) FRetrieve then Fin s (mk_drec l RErrGet)
-          else Next (set_init (upd (init s) p (retr (en s) p))
-                       (set_unpaid (upd (unpaid s) p (Some (retr (en s) p))) s))
+          else Next (set_init (upd (init s) p (retr (en s) p)) (write_new p (retr (en s) p) s))
                     (goto l (after_get c o))
       end
   | PLock =>
@@ -190,16 +205,24 @@ Definition micro (c : cfg) (tid : N) (s : sh) (l : loc) : outcome :=
       | Some _ => Blocked
       end
   | PRead =>
-      match unpaid s p with
-      | None => Fin s (mk_drec l RPanic)
-      | Some u => Next (log_acc tid p Rd s) (goto (set_reg l u) PUnlockR)
+      (* retrieve := accountingPeer.unPaidTraffic : the POINTER is copied ([reg] keeps, as a ghost,
+         the value it points to at this moment) *)
+      match unpaid s p, ptr s p with
+      | Some u, Some a => Next (log_acc tid p Rd s) (goto (set_rptr (set_reg l u) a) PUnlockR)
+      | _, _ => Fin s (mk_drec l RPanic)
       end
   | PReadNL =>
-      match unpaid s p with
-      | None => Fin s (mk_drec l RPanic)
-      | Some u => Next (log_acc tid p Rd s) (goto (set_reg l u) PAvail)
+      match unpaid s p, ptr s p with
+      | Some u, Some a => Next (log_acc tid p Rd s) (goto (set_rptr (set_reg l u) a) PDeref)
+      | _, _ => Fin s (mk_drec l RPanic)
       end
-  | PUnlockR => Next (set_lock (upd (lock s) p None) s) (goto l PAvail)
+  | PUnlockR => Next (set_lock (upd (lock s) p None) s) (goto l PDeref)
+  | PDeref =>
+      (* big.NewInt(0).Add(retrieve, traffic): the value is read through the copied pointer, lock released *)
+      match heap s (rptr l) with
+      | Some v => Next s (goto (set_reg l v) PAvail)
+      | None => Fin s (mk_drec l RPanic)
+      end
   | PAvail =>
       if fails (en s) FAvail then Fin s (mk_drec l RErrAvail)
       else if avail (en s) <? reg l + amt o then Fin s (mk_drec l RLow)
@@ -212,7 +235,7 @@ Definition micro (c : cfg) (tid : N) (s : sh) (l : loc) : outcome :=
   | PCWrite =>
       let v := reg l + amt o in
       let e := {| l_tid := tid; l_peer := p; l_ev := Cr (amt o); l_after := v |} in
-      Next (add_lin e (log_acc tid p Wr (set_unpaid (upd (unpaid s) p (Some v)) s)))
+      Next (add_lin e (log_acc tid p Wr (write_new p v s)))
            (goto (set_lev (set_reg l v) (Some e)) PCPut)
   | PCPut =>
       if fails (en s) FPutRetrieve then Next s (exit_with l RErrPut)
@@ -251,7 +274,7 @@ Definition micro (c : cfg) (tid : N) (s : sh) (l : loc) : outcome :=
   | PNWrite =>
       let v := if reg l <? amt o then 0 else reg l - amt o in
       let e := {| l_tid := tid; l_peer := p; l_ev := Py (amt o); l_after := v |} in
-      Next (add_lin e (log_acc tid p Wr (set_unpaid (upd (unpaid s) p (Some v)) s)))
+      Next (add_lin e (log_acc tid p Wr (write_new p v s)))
            (exit_with (set_lev (set_reg l v) (Some e)) ROk)
   | PExit => Fin (set_lock (upd (lock s) p None) s) (mk_drec l (pend l))
   | PEnv =>
@@ -263,7 +286,7 @@ Definition micro (c : cfg) (tid : N) (s : sh) (l : loc) : outcome :=
 
 Definition start (o : op) : loc :=
   {| l_op := o; l_pt := match o with OEnv _ => PEnv | _ => PGet end;
-     reg := 0; flag := false; pend := ROk; lev_ := None; putd := false |}.
+     reg := 0; rptr := 0%N; flag := false; pend := ROk; lev_ := None; putd := false |}.
 
 (** the point a thread stands at: inside an operation, or about to start the next *)
 Definition standing (th : thread) : option (loc * list op) :=
@@ -302,7 +325,7 @@ Definition step (c : cfg) (s : st) (w : who) : st :=
 Definition run (c : cfg) (sched : list who) (s : st) : st := fold_left (step c) sched s.
 
 Definition sh0 (e : env) : sh :=
-  {| unpaid := fun _ => None; lock := fun _ => None; chan := []; sreg := None; pays := []; en := e;
+  {| unpaid := fun _ => None; ptr := fun _ => None; heap := fun _ => None; next := 0%N; lock := fun _ => None; chan := []; sreg := None; pays := []; en := e;
      init := fun _ => 0; lin := []; acc := []; sent := []; puts := [] |}.
 Definition st0 (e : env) (progs : N -> list op) : st :=
   {| shs := sh0 e; thr := fun tid => {| prog := progs tid; cur := None; done := [] |} |}.
